@@ -221,7 +221,7 @@ impl Prop for Faults {
         700
     }
     fn cases(&self, tier: Tier) -> u64 {
-        tier.pick(30_000, 1_000_000)
+        tier.pick(30_000, 3_000_000)
     }
     fn generate(&self, g: &mut Gen) -> Case {
         let mut universe = gen_universe(g, &UniverseOpts { max_zones: 6, max_depth: 4, multi_address_hosts: false, wildcards: false, aliases: true });
